@@ -423,7 +423,12 @@ def run_oracles(si, sm, viol, cover):
                     # only first-marking forward barriers / resurrect may pay debt inside a callback (F4)
                     m0, m1 = pre["m"].split(","), post["m"].split(",")
                     only_marked = (m0[:4] == m1[:4] and m0[5:] == m1[5:] and int(m1[4]) == int(m0[4]) + 1)
-                    if o[1] in ("barf", "barfw", "resurrect", "resurrectw") and only_marked:
+                    # F4 is the FIRST marking of an object: exactly one object left colour White in this operation
+                    # (an object that was already weakly marked must not earn the credit again)
+                    c0 = {i: c for (i, c, _, _) in all_objs(pre)}
+                    first_marked = [i for (i, c, _, _) in all_objs(post) if c0.get(i) == "W" and c != "W"]
+                    remarked = [i for (i, c, _, _) in all_objs(post) if c0.get(i) == "w" and c in "GB"]
+                    if o[1] in ("barf", "barfw", "resurrect", "resurrectw") and only_marked and len(first_marked) == 1 and not remarked:
                         viol("C10", "C10-F4-first-marking-barrier-credits-debt",
                              "allocation_debt decreased inside a callback by `%s` (first marking credits mark_factor)" % li.optext, k)
                     else:
